@@ -467,6 +467,22 @@ func (w *world) run(ops []op, tl *tally, out *outcome, verbose bool) (v *verdict
 	return nil
 }
 
+// decisionString renders the decisions in operation order: P passed, r rejected, - clock advance.
+func decisionString(ops []op, d uint32) string {
+	b := make([]byte, len(ops))
+	for i, o := range ops {
+		switch {
+		case o.Clock > 0:
+			b[i] = '-'
+		case d&(1<<uint(i)) != 0:
+			b[i] = 'P'
+		default:
+			b[i] = 'r'
+		}
+	}
+	return string(b)
+}
+
 func b2i(b bool) byte {
 	if b {
 		return 1
@@ -603,6 +619,26 @@ func plans(thorough bool) []plan {
 			}
 		}
 	}
+	// cheap and varied plans first, the big size-kind base plans last (matters only when the deadline cuts the run)
+	var first, last []plan
+	for _, pl := range out {
+		if strings.HasPrefix(pl.Name, "base") && pl.Cfg.Kind == "size" {
+			last = append(last, pl)
+		} else {
+			first = append(first, pl)
+		}
+	}
+	out = append(first, last...)
+	// development aid: VERIF_C16_ONLY=<substring of the plan name> restricts the run (the run is then reported non-exhaustive)
+	if only := os.Getenv("VERIF_C16_ONLY"); only != "" {
+		var sel []plan
+		for _, pl := range out {
+			if strings.Contains(pl.Name, only) {
+				sel = append(sel, pl)
+			}
+		}
+		out = sel
+	}
 	return out
 }
 
@@ -653,6 +689,9 @@ func TestVerif(t *testing.T) {
 	}
 
 	ps := plans(r.Thorough())
+	if os.Getenv("VERIF_C16_ONLY") != "" {
+		r.Cap("VERIF_C16_ONLY set")
+	}
 	if os.Getenv("VERIF_C16_PLANS") != "" {
 		var sum int64
 		for pi, pl := range ps {
@@ -722,7 +761,7 @@ func TestVerif(t *testing.T) {
 					}
 					r.Outcome(fmt.Sprint(pi), string(out.trace))
 					if nSeq%50021 == 1 {
-						r.Sample(map[string]any{"cfg": pl.Cfg, "ops": fmt.Sprint(ops), "decisions": fmt.Sprintf("%0*b", len(ops), out.decisions)})
+						r.Sample(map[string]any{"cfg": pl.Cfg, "ops": fmt.Sprint(ops), "decisions": decisionString(ops, out.decisions)})
 					}
 				}
 				// next sequence with the same two first letters
